@@ -45,7 +45,8 @@ pub struct Program {
     pub writer_node: usize,
 }
 
-const KEYS: [&str; 2] = ["ka", "kb"];
+// (one key name is the beginning of the other: whatever is looked up by key name must not confuse them)
+const KEYS: [&str; 2] = ["ka", "kab"];
 
 fn gen(rng: &mut Rng, cluster: bool) -> Program {
     let n = rng.range(2, 10) as usize;
@@ -133,6 +134,11 @@ fn pending_conflict_entries(admin: &mut Session, key: &str) -> Vec<(String, Stri
     let names = parse_keys(&admin.exec(&format!("keys $conflicts_{}", key)).msgs).unwrap_or_default();
     let mut v = Vec::new();
     for n in names {
+        // the records of this key only: `$conflicts_<key>_<operation id>` (another key's name may begin with this one's)
+        let own = n.strip_prefix(&format!("$conflicts_{}_", key)).map(|rest| !rest.is_empty() && rest.chars().all(|c| c.is_ascii_digit())).unwrap_or(false);
+        if !own {
+            continue;
+        }
         let val = parse_value(&admin.exec(&format!("get {}", n)).msgs).unwrap_or_default();
         v.push((n, val));
     }
